@@ -366,3 +366,11 @@ pub fn frame_limit(a: &Args) {
         let _ = tokio::time::timeout(std::time::Duration::from_secs(3), node_handle).await;
     });
 }
+
+/// write_backlog frames=<n> size=<bytes>
+pub fn write_backlog(a: &Args) {
+    let rt = tokio::runtime::Builder::new_multi_thread().worker_threads(2).enable_all().build().unwrap();
+    let (got, intact) = rt.block_on(ractor_cluster::verif_session_probe::verif_write_backlog(a.usize("frames"), a.usize("size")));
+    println!("got={}", got.iter().map(|x| x.to_string()).collect::<Vec<_>>().join(","));
+    println!("intact={}", intact as u8);
+}
